@@ -39,4 +39,15 @@ structure Contract (O : Type) (ms : List Metric) where
   /-- two well-formed objects with the same metric values are the same object (`==`) -/
   ext : ∀ c c', WF c → WF c' → (∀ m ∈ ms, get c m.abv = get c' m.abv) → c = c'
 
+/-- every metric of the table written out with the value the object holds for it -/
+def Contract.pairs {O : Type} {ms : List Metric} (K : Contract O ms) (c : O) : List Spec.Pair :=
+  ms.map fun m => (m.abv, (K.get c m.abv).1)
+
+/-- What the parser-level proofs need to know about the generated `Vector()`: on a well-formed object it
+    spells the canonical form (`canon`, the version's `Spec.Vx.canonical`) of the object's own values.
+    Proved per version from the generated `Vector`/`lenVec` code in `Proofs/Vec*.lean`. -/
+structure VecContract (O : Type) (ms : List Metric) (K : Contract O ms) (canon : List Spec.Pair → Bytes) where
+  vector : O → Bytes
+  vector_eq : ∀ c, K.WF c → vector c = canon (K.pairs c)
+
 end Proofs
